@@ -9,7 +9,7 @@ fn row(icao: u32, age: i64) -> Plane {
     p
 }
 
-// @harness props=C12 tier=quick cap=900
+// @harness props=C12,C01 tier=quick cap=900
 // one `cleanup` call on a table of three rows with arbitrary last-contact ages (both sides of and
 // exactly at the limit), arbitrary delete_after in 1..=40000 s and arbitrary sweep counter 0..=11:
 // a sweep happens iff the counter exceeds 10, removes exactly the rows silent for >= delete_after
